@@ -113,7 +113,7 @@ Definition call_events (c : cfg) (h : hcall) : list event :=
 
 (* the maps of the walk context as functions of the trace *)
 Definition inv_of_event (c : cfg) (ev : event) : list tpkg :=
-  match ev with EExtract e p => map (fun x => (e, x)) (pkgs_of (c_extract c e p)) | _ => [] end.
+  match ev with EExtract e p => map (fun x => (e, x)) (map (abs_pkg c) (pkgs_of (c_extract c e p))) | _ => [] end.
 Definition err_of_event (c : cfg) (ev : event) : list (ext * erritem) :=
   match ev with
   | EExtract e p => if errs_flag (c_extract c e p) then [(e, (EkExtract, p))] else []
@@ -139,7 +139,7 @@ Definition apply_event (c : cfg) (st : state) (ev : event) : state :=
       | XPanic => st1
       | XRes pk err =>
           let st2 := if err then add_error st1 e EkExtract p else st1 in
-          match pk with [] => st2 | _ => add_results st2 e pk end
+          match pk with [] => st2 | _ => add_results st2 e (map (abs_pkg c) pk) end
       end
   | EOpenErr e p => add_error (add_event st ev) e EkOpen p
   | EFstatErr e p => add_error (add_event st ev) e EkFstat p
